@@ -60,6 +60,29 @@ class FakeTransport(asyncio.Transport):
         self.closed = False
         self.eof = False
         self.after_close: List[bytes] = []
+        # optional write flow control, as asyncio transports do it (off unless flow_high is set):
+        # when more than flow_high bytes are outstanding the transport calls protocol.pause_writing()
+        # (synchronously, from inside write()/writelines()); drain() = the peer has read everything,
+        # the transport calls protocol.resume_writing().
+        self.protocol = None
+        self.flow_high = None
+        self.outstanding = 0
+        self.paused = False
+        self.flow_calls: List[str] = []
+
+    def _account(self, n):
+        self.outstanding += n
+        if self.flow_high is not None and self.protocol is not None and not self.paused and self.outstanding > self.flow_high:
+            self.paused = True
+            self.flow_calls.append("pause")
+            self.protocol.pause_writing()
+
+    def drain(self):
+        self.outstanding = 0
+        if self.paused and not self.closed:
+            self.paused = False
+            self.flow_calls.append("resume")
+            self.protocol.resume_writing()
 
     def get_extra_info(self, name, default=None):
         return self.peer if name == "peername" else default
@@ -72,6 +95,7 @@ class FakeTransport(asyncio.Transport):
             self.after_close.append(bytes(data))
         else:
             self.writes.append(("write", bytes(data)))
+            self._account(len(data))
 
     def writelines(self, lines):
         data = b"".join(bytes(x) for x in lines)
@@ -79,6 +103,7 @@ class FakeTransport(asyncio.Transport):
             self.after_close.append(data)
         else:
             self.writes.append(("writelines", data))
+            self._account(len(data))
 
     def write_eof(self):
         self.eof = True
